@@ -113,7 +113,7 @@ type verifC11API struct {
 	elog   *verifC11ErrLog
 	snd    *verifC11Sender
 	rec    *kit.Rec
-	pool   sync.Pool
+	pool   chan *verifC11Conn
 }
 
 type verifC11Conn struct {
@@ -146,7 +146,7 @@ func verifC11APISetup(t testing.TB, listen bool) *verifC11API {
 	if err != nil {
 		t.Fatalf("cannot build the registrar (infrastructure): %v", err)
 	}
-	h := &verifC11API{snd: &verifC11Sender{}, elog: &verifC11ErrLog{}}
+	h := &verifC11API{snd: &verifC11Sender{}, elog: &verifC11ErrLog{}, pool: make(chan *verifC11Conn, 64)}
 	rp.VerifC11SetSender(h.snd)
 	for tt, tr := range map[pb.TransportType]lib.Transport{ // cmd/registration-server/main.go defaultTransports
 		pb.TransportType_Min: min.Transport{}, pb.TransportType_Obfs4: obfs4.Transport{}, pb.TransportType_Prefix: prefix.DefaultSet(), pb.TransportType_DTLS: dtls.Transport{},
@@ -155,8 +155,9 @@ func verifC11APISetup(t testing.TB, listen bool) *verifC11API {
 			t.Fatal(err)
 		}
 	}
-	// the server's ClientConf is newer than most clients' (generation 1000 > 957), as in deployment
-	cc := &pb.ClientConf{Generation: proto.Uint32(1000), DecoyList: &pb.DecoyList{TlsDecoys: []*pb.TLSDecoySpec{{Hostname: proto.String("decoy.example")}}}}
+	// the server's ClientConf is the current generation of the subnet file (957): clients at 957 are up to
+	// date, clients at 1 / 2 / 0 / absent are outdated and get the server's ClientConf
+	cc := &pb.ClientConf{Generation: proto.Uint32(957), DecoyList: &pb.DecoyList{TlsDecoys: []*pb.TLSDecoySpec{{Hostname: proto.String("decoy.example")}}}}
 	h.s, err = NewAPIRegServer(0, rp, cc, lg.WithField("registrar", "API"), true, met)
 	if err != nil {
 		t.Fatal(err)
@@ -223,14 +224,19 @@ func verifC11Request(path string, in []byte) (req []byte, shape int, halfClose b
 
 // verifExchange sends one request and reads the status line.  status 0 = the exchange ended
 // without one.
-func (h *verifC11API) verifExchange(req []byte, halfClose bool, wait time.Duration) (status int, local string, err error) {
+func (h *verifC11API) verifExchange(req []byte, halfClose, fresh bool, wait time.Duration) (status int, local string, reused bool, err error) {
 	var vc *verifC11Conn
-	if x := h.pool.Get(); x != nil && !halfClose {
-		vc = x.(*verifC11Conn)
-	} else {
+	if !halfClose && !fresh {
+		select {
+		case vc = <-h.pool:
+			reused = true
+		default:
+		}
+	}
+	if vc == nil {
 		c, err := net.Dial("tcp", h.addr)
 		if err != nil {
-			return -1, "", err
+			return -1, "", false, err
 		}
 		vc = &verifC11Conn{c: c, br: bufio.NewReader(c)}
 	}
@@ -239,7 +245,7 @@ func (h *verifC11API) verifExchange(req []byte, halfClose bool, wait time.Durati
 	if _, err = vc.c.Write(req); err != nil {
 		// a pooled connection the server has closed meanwhile: not an observation about this request
 		vc.c.Close()
-		return -1, local, err
+		return -1, local, reused, err
 	}
 	if halfClose {
 		vc.c.(*net.TCPConn).CloseWrite()
@@ -247,16 +253,20 @@ func (h *verifC11API) verifExchange(req []byte, halfClose bool, wait time.Durati
 	resp, err := http.ReadResponse(vc.br, nil)
 	if err != nil {
 		vc.c.Close()
-		return 0, local, err
+		return 0, local, reused, err
 	}
 	_, cerr := io.Copy(io.Discard, resp.Body)
 	resp.Body.Close()
 	if cerr != nil || resp.Close || halfClose || vc.br.Buffered() > 0 {
 		vc.c.Close()
 	} else {
-		h.pool.Put(vc)
+		select {
+		case h.pool <- vc:
+		default:
+			vc.c.Close()
+		}
 	}
-	return resp.StatusCode, local, nil
+	return resp.StatusCode, local, reused, nil
 }
 
 func (h *verifC11API) verifExec(entry, path string) func(c *kit.C11Case) string {
@@ -265,8 +275,15 @@ func (h *verifC11API) verifExec(entry, path string) func(c *kit.C11Case) string 
 		var status int
 		var local string
 		var err error
-		for try := 0; try < 3; try++ {
-			status, local, err = h.verifExchange(req, halfClose, 30*time.Second)
+		var reused bool
+		for try := 0; try < 4; try++ {
+			status, local, reused, err = h.verifExchange(req, halfClose, try > 0, 30*time.Second)
+			if status == 0 && reused {
+				// a kept-alive connection may have been closed by the server for reasons of its own: only an
+				// exchange on a fresh connection counts
+				h.rec.Count("retried_on_fresh_connection", 1)
+				continue
+			}
 			if status != -1 {
 				break
 			}
@@ -277,7 +294,7 @@ func (h *verifC11API) verifExec(entry, path string) func(c *kit.C11Case) string 
 		if status == 0 {
 			if ne, ok := err.(net.Error); ok && ne.Timeout() {
 				// no answer in 30 s: once more, alone on a fresh connection, with 60 s
-				status, local, err = h.verifExchange(req, true, 60*time.Second)
+				status, local, _, err = h.verifExchange(req, halfClose, true, 60*time.Second)
 				if status == 0 {
 					if ne, ok := err.(net.Error); ok && ne.Timeout() {
 						w := kit.C11Witness(c.In)
@@ -293,27 +310,31 @@ func (h *verifC11API) verifExec(entry, path string) func(c *kit.C11Case) string 
 			w := kit.C11Witness(c.In)
 			w["entry"], w["kind"], w["client_error"] = entry, c.Kind, fmt.Sprint(err)
 			w["request_first_line"] = strings.SplitN(string(req), "\r\n", 2)[0]
-			w["body_hex"] = kit.HexN(c.In[min1(len(c.In)):], 512)
+			// input class (part of the signature, so that another panic in the same function is a different finding)
+			class := "undecodable-body"
+			if len(c.In) > 0 {
+				pw := &pb.C2SWrapper{}
+				if proto.Unmarshal(c.In[1:], pw) == nil {
+					class = "registration_payload-present"
+					if pw.RegistrationPayload == nil {
+						class = "registration_payload-absent"
+					}
+				}
+			}
+			w["input_class"] = class
 			if found {
-				frame := kit.C11FrameFromTrace(trace)
+				frame := kit.C11FrameFromTrace(trace) + ":" + class
 				first := strings.SplitN(trace, "\n", 2)[0]
 				w["panic"], w["server_log"] = first, verifC11Trim(trace, 1500)
 				h.rec.Violation("panic:"+entry+":"+frame, "HTTP exchange ended without a status line: the handler panicked ("+first+"), net/http recovered it and closed the connection", w)
 			} else {
-				h.rec.Violation("http-no-status:"+entry, "HTTP exchange ended without a status line (connection closed / malformed response) and no handler panic was logged", w)
+				h.rec.Violation("http-no-status:"+entry+":"+class, "HTTP exchange ended without a status line (connection closed / malformed response) and no handler panic was logged", w)
 			}
 			return "NO-STATUS"
 		}
 		_ = shape
 		return fmt.Sprintf("status-%d", status)
 	}
-}
-
-func min1(n int) int {
-	if n > 1 {
-		return 1
-	}
-	return n
 }
 
 func verifC11Trim(s string, n int) string {
